@@ -26,7 +26,10 @@ RULE = ("sequences of 0-7 header lines over the pragma grammar: start symbol, ke
         "contig values, duplicates anywhere; streams valid (distinct well-formed keys), single-defect (one malformed "
         "line of each category or one duplicate at every position), boundary (fixed list), adversarial (random mix, "
         "CR/LF inside lines); modes Strict/Lenient/Silent/default; plus derive cases (from_reader copy, 0-5 mutations "
-        "of the copy then 0-5 of the source: replace/delete/assign value/assign key/append contig/new contigs). "
+        "of the copy then 0-5 of the source: replace/delete/assign value/assign key/append contig/new contigs) and op-sequence "
+        "cases (a parsed or from_reader-derived header, 1-6 set/del/pop/clear/popitem operations through the "
+        "MutableMapping API, validate()+accessors+scheme()+str() observed after every operation and compared with the "
+        "same pragmas parsed afresh). "
         "non-trivial: at least two records kept, or a diagnostic reported, or a mutation applied; distinct by case hash")
 ASSUMPTIONS = [
     "lib/Str.v is_space equals str.isspace on every code point (checked by an exhaustive sweep each run)",
@@ -108,8 +111,69 @@ def _muts(rng):
     return out
 
 
+OP_KEYS = ["version", "annotation.spec", "sort.order", "contigs", "center", "k"]
+
+
+def _hops(rng, present):
+    """0-6 operations through the MutableMapping API; values are ones str() prints and from_lines reads back"""
+    out = []
+    keys = list(present)
+    for _ in range(rng.randint(1, 6)):
+        r = rng.random()
+        if r < 0.45 and keys:
+            k = rng.choice(keys) if rng.random() < 0.85 else rng.choice(OP_KEYS)
+            out.append([rng.choice(["del", "pop"]), k])
+            if k in keys:
+                keys.remove(k)
+        elif r < 0.5:
+            out.append(["clear"])
+            keys = []
+        elif r < 0.55:
+            out.append(["popitem"])
+            keys = keys[1:]
+        else:
+            k = rng.choice(OP_KEYS)
+            if k == "version":
+                v = ["t", rng.choice(["gdc-1.0.0", "gdc-1.0.0", "v9", "no-version"])]
+            elif k == "annotation.spec":
+                v = ["t", rng.choice(["gdc-1.0.0-public", "gdc-1.0.0-protected", "gdc-1.0.0", "junk"])]
+            elif k == "sort.order":
+                v = ["o", rng.choice(R.SORT_NAMES), rng.choice([None, None, ["c1", "c2"]])]
+            elif k == "contigs":
+                v = ["c", rng.sample(["chr1", "chr2", "chr3"], rng.randint(1, 3))]
+            else:
+                v = ["t", rng.choice(["x", "a b", "1.0"])]
+            out.append(["set", k, v])
+            if k not in keys:
+                keys.append(k)
+    return out
+
+
+def _ops_case(rng):
+    flavour = rng.choice(["basic", "annotated", "annotated", "unknown", "random"])
+    if flavour == "basic":
+        ls = ["#version gdc-1.0.0"]
+    elif flavour == "annotated":
+        ls = ["#version gdc-1.0.0", "#annotation.spec " + rng.choice(R.ANNOTS_OK)]
+    elif flavour == "unknown":
+        ls = ["#version v1", "#annotation.spec zz"]
+    else:
+        ls = []
+    extra = [l for l in _valid(rng) if l.startswith("#") and "\n" not in l and "\r" not in l
+             and l[1:].split(" ", 1)[0] not in [x[1:].split(" ", 1)[0] for x in ls]]
+    ls = ls + extra[:rng.randint(0, 3)]
+    rng.shuffle(ls)
+    present = [l[1:].split(" ", 1)[0] for l in ls]
+    return {"kind": "ops", "stream": "ops", "lines": ls, "derive": rng.random() < 0.4, "ops": _hops(rng, present)}
+
+
 def corpus():
     return [
+        # a cached scheme must not survive the deletion of the pragma it came from
+        {"kind": "ops", "stream": "corpus", "lines": ["#version gdc-1.0.0", "#annotation.spec gdc-1.0.0-protected"],
+         "derive": False, "ops": [["del", "annotation.spec"]]},
+        {"kind": "ops", "stream": "corpus", "lines": ["#version gdc-1.0.0"], "derive": True,
+         "ops": [["pop", "version"], ["set", "version", ["t", "gdc-1.0.0"]], ["clear"]]},
         {"kind": "header", "stream": "corpus", "mode": "Silent", "lines":
             ["#version gdc-1.0.0", "#annotation.spec gdc-1.0.0-public", "#sort.order Coordinate", "#contigs chr1,chr2", "#k a  b  "]},
         {"kind": "derive", "stream": "corpus", "lines": ["#version gdc-1.0.0", "#contigs chr1,chr2", "#sort.order Coordinate"],
@@ -122,6 +186,8 @@ def generate(rng, n):
     for b in BOUNDARY:
         for m in ("Silent", "Strict", "Lenient"):
             out.append({"kind": "header", "stream": "boundary", "mode": m, "lines": list(b)})
+    for _ in range(max(40, n // 5)):
+        out.append(_ops_case(rng))
     nd = max(20, n // 8)
     for _ in range(nd):
         ls = [l for l in (_valid(rng) if rng.random() < 0.7 else _lines(rng, "defect")) if l.startswith("#")
@@ -136,7 +202,7 @@ def generate(rng, n):
 
 def shrink(case):
     yield from R.shrink_lines(case)
-    for k in ("mc", "ms"):
+    for k in ("mc", "ms", "ops"):
         if case.get(k):
             for i in range(len(case[k])):
                 yield dict(case, **{k: case[k][:i] + case[k][i + 1:]})
@@ -145,18 +211,24 @@ def shrink(case):
 def to_model(case):
     if case["kind"] == "header":
         return R.wire_header(case["lines"], case["mode"])
+    if case["kind"] == "ops":
+        return R.wire_header_ops(case["lines"], case["ops"])
     return R.wire_derive(case["lines"], case["mc"], case["ms"])
 
 
 def run_impl(case):
     if case["kind"] == "header":
         return R.impl_header(case["lines"], case["mode"])
+    if case["kind"] == "ops":
+        return R.impl_header_ops(case["lines"], case["ops"], case["derive"])
     return R.impl_derive(case["lines"], case["mc"], case["ms"])
 
 
 def from_model(case, sx):
     if case["kind"] == "header":
         return R.dec_header(sx)
+    if case["kind"] == "ops":
+        return R.dec_header_ops(sx)
     return R.dec_derive(sx)
 
 
@@ -175,8 +247,29 @@ def _expected_value(key, value, kept):
     return ["t", value]
 
 
+def _ops_oracle(case, obs):
+    """after every operation the accessors, scheme() and the header-level checks must be those of the same
+    pragmas parsed afresh from str(header)"""
+    out = []
+    for i, (st, fr) in enumerate(zip(obs["steps"], obs["_fresh"])):
+        h = st["h"]
+        op = case["ops"][i][0]
+        if h["print"] != fr["print"]:
+            continue        # not a header str() round-trips (not generated); nothing to compare against
+        for k in ("version", "annotation", "contigs", "scheme"):
+            if h[k] != fr[k]:
+                out.append("after-%s-%s %r but-the-pragmas-say %r" % (op, k, h[k], fr[k]))
+        if h["order"][0] != fr["order"]:
+            out.append("after-%s-sort-order %r but-the-pragmas-say %r" % (op, h["order"][0], fr["order"]))
+        if h["errs"] != fr["errs"]:
+            out.append("after-%s-checks %r but-the-pragmas-say %r" % (op, h["errs"], fr["errs"]))
+    return out
+
+
 def oracle(case, obs):
     out = []
+    if case["kind"] == "ops":
+        return _ops_oracle(case, obs)
     if case["kind"] == "derive":
         p = obs["_prints"]
         if obs["_shared"]:
@@ -241,6 +334,9 @@ def signature(case, violation):
 
 
 def classify(case, obs):
+    if case["kind"] == "ops":
+        kinds = sorted({o[0] for o in case["ops"]})
+        return "ops/%s/%s" % ("derived" if case["derive"] else "parsed", "+".join(kinds))
     if case["kind"] == "derive":
         return "derive/muts=%s" % ("0" if not (case["mc"] or case["ms"]) else "1+")
     if obs is None:
@@ -255,6 +351,8 @@ def classify(case, obs):
 
 
 def nontrivial(case, obs):
+    if case["kind"] == "ops":
+        return any(s["exc"] is None for s in obs["steps"])
     if case["kind"] == "derive":
         return bool(case["mc"] or case["ms"])
     r = obs["first"]["res"]
